@@ -238,7 +238,7 @@ pub fn check_prog(prog: &Prog, k: usize, seed: u64, iters: usize, acc: &mut Acc,
 
 pub fn run(r: &mut Report) {
     let mut rng = Rng::new(r.seed ^ 0xC08);
-    let per_family = if r.quick() { 10 } else { 60 };
+    let per_family = if r.quick() { 25 } else { 60 };
     let iters = if r.quick() { 40 } else { 100 };
     let mut items: Vec<(String, Prog, usize, u64)> = vec![];
     // yield-heavy hand-written programs
